@@ -31,6 +31,9 @@ class Net (object):
     self.max_hops = 64
 
   def connect (self, i):
+    # (a new control connection: the switch starts its side of the handshake afresh)
+    self.sw[i].sw.set_connection(self.sw[i].conn)
+    self.sw[i].drain()
     self.con[i] = self.cs.connect()
     self.pump()
 
